@@ -51,6 +51,13 @@ class Contract:
     def hooks(self, ctx):
         return {}
 
+    def locate(self, mutant=None):
+        return locate_for(self, mutant)
+
+    def entry(self, loc, ctx):
+        """the interpretable closure of the function under contract"""
+        return core.make_callable(loc, ctx.namespace, self.hooks(ctx))
+
     def ensures_raise(self, ctx, etype):
         """postcondition of exceptional exits (frame conditions that must hold when the function raises)"""
         return []
@@ -124,7 +131,7 @@ def run_structure(contract, label, st, mutant=None, stop_on_refute=False):
     result: dict(obligations={clause: {status, detail, model, replay_src}}, paths=..., solver_s=..., ...)
     """
     t0 = time.time()
-    loc = locate_for(contract, mutant)
+    loc = contract.locate(mutant)
     obl = {}
     counts = dict(returned=0, declined=0, unsupported=0)
     solver_s = 0.0
@@ -141,9 +148,10 @@ def run_structure(contract, label, st, mutant=None, stop_on_refute=False):
 
     def run_once(p):
         ctx = contract.build(p, st)
-        f, interp = core.make_callable(loc, ctx.namespace, contract.hooks(ctx))
-        ctx.interp = interp
         ctx.path = p
+        f, interp = contract.entry(loc, ctx)
+        ctx.interp = interp
+        ctx.entry = f
         try:
             result = f(*ctx.args, **ctx.kwargs)
         except Declined as d:
